@@ -32,7 +32,7 @@ def gen_cases(tier):
     def it():
         for kind in ("bool", "spin"):
             for D in gen.polys(N, maxterms, COEFS, offsets=OFFSETS):
-                yield {"kind": kind, "poly": rp.jdict(D)}
+                yield {"kind": kind, "poly": rp.jdict(D), "quick": tier == "quick"}
     return it
 
 
@@ -56,6 +56,7 @@ def sub_menu(spin):
             c[i] = val
             menu.append(c)
     menu.append([2, -3, 2])
+    menu.append([d1, None, None, "extra"])      # `values` also names a label the model does not have (must be ignored)
     menu.append(["sym", d1, None])
     menu.append([d1, "sym", 2])
     return menu
@@ -76,7 +77,7 @@ def check(case, st):
     for cont in conts:
         if cont in gen.DEG2 and deg > 2:
             continue
-        for sch in (gen.MATRIX_SCHEMES if cont in gen.MATRIX else gen.LABELLED_SCHEMES):
+        for sch in (gen.MATRIX_SCHEMES if cont in gen.MATRIX else (gen.LABELLED_SCHEMES if not case.get("quick") else ("int", "str", "gap", "tuple"))):
             D = gen.relabel(D0, sch, N)
             labels = gen.labels_for(sch, N)
             st.extra["models_built"] = st.extra.get("models_built", 0) + 1
@@ -92,6 +93,9 @@ def check(case, st):
             for combo in sub_menu(spin):
                 values = {}
                 numvalues = {}
+                if len(combo) > N:
+                    values["label-not-in-model"] = 1
+                    combo = combo[:N]
                 for i, val in enumerate(combo):
                     if val is None:
                         continue
@@ -141,6 +145,8 @@ def check(case, st):
                     # every PARTIAL connection map too: each outside variable absent (-> default 0) or fixed to a domain value
                     conns = [None] + [{l: c for l, c in zip(outside, combo) if c is not None}
                                       for combo in itertools.product((None, d0, d1), repeat=len(outside))]
+                    # a connection map / node set naming labels the model does not have
+                    conns.append(dict({l: d1 for l in outside}, **{"label-not-in-model": d1}))
                     for conn in conns:
                         fixed = {l: (conn or {}).get(l, 0) for l in outside}
                         Dref = {}
@@ -230,5 +236,5 @@ def run(ctx):
 def replay(case):
     from ..runner import Stats
     st = Stats()
-    check({"kind": case["kind"], "poly": case["poly"]}, st)
+    check({"kind": case["kind"], "poly": case["poly"], "quick": False}, st)
     return [(s, m) for s, c, m in st.viol]
